@@ -20,10 +20,10 @@ type Fault struct {
 
 // LinkSpec describes the behaviour of a link (both directions).
 type LinkSpec struct {
-	Ordered bool    `json:"ordered"`       // keep FIFO per direction (delays only stretch)
-	AB      []Fault `json:"ab,omitempty"`  // programme for datagrams a->b
-	BA      []Fault `json:"ba,omitempty"`  // programme for datagrams b->a
-	Frame   []int   `json:"frame,omitempty"` // if non-empty: carry the datagrams as a framed byte stream cut into these chunk sizes (cycled)
+	Ordered bool    `json:"ordered"`          // keep FIFO per direction (delays only stretch)
+	AB      []Fault `json:"ab,omitempty"`     // programme for datagrams a->b
+	BA      []Fault `json:"ba,omitempty"`     // programme for datagrams b->a
+	Frame   []int   `json:"frame,omitempty"`  // if non-empty: carry the datagrams as a framed byte stream cut into these chunk sizes (cycled)
 	Socket  string  `json:"socket,omitempty"` // "tcp" | "ws": real listener/dialer backends of pkg/backends on loopback, through a proxy that re-chunks the byte stream (Frame = piece sizes)
 }
 
@@ -32,16 +32,16 @@ type TapFunc func(dir int, data []byte)
 
 // dirQueue delivers datagrams of one direction according to the fault programme.
 type dirQueue struct {
-	mu       sync.Mutex
-	prog     []Fault
-	pos      int
-	ordered  bool
-	lastDue  time.Time
-	held     [][]byte
-	out      chan []byte
-	closed   chan struct{}
-	stats    *LinkStats
-	pending  int64
+	mu      sync.Mutex
+	prog    []Fault
+	pos     int
+	ordered bool
+	lastDue time.Time
+	held    [][]byte
+	out     chan []byte
+	closed  chan struct{}
+	stats   *LinkStats
+	pending int64
 }
 
 // LinkStats counts what the fault programme actually did.
@@ -139,13 +139,17 @@ type MemSession struct {
 	in      chan []byte
 	sendQ   *dirQueue
 	fifo    chan timed
+	own     chan struct{} // this end alone was closed (silent sessions)
+	ownOnce sync.Once
 }
 
 // SessionPair is one established session between two link ends.
 type SessionPair struct {
 	A, B      *MemSession
-	closed    chan struct{}
+	closed    chan struct{} // both ends closed (like a closed socket, seen by both sides)
 	closeOnce sync.Once
+	anyClosed chan struct{} // at least one end was closed (also when the other side has not been told: silent sessions)
+	anyOnce   sync.Once
 	silent    int32
 	tap       TapFunc
 	Stats     [2]LinkStats
@@ -153,9 +157,9 @@ type SessionPair struct {
 
 // NewSessionPair creates the two ends of a session.
 func NewSessionPair(spec LinkSpec, tap TapFunc) *SessionPair {
-	p := &SessionPair{closed: make(chan struct{}), tap: tap}
+	p := &SessionPair{closed: make(chan struct{}), anyClosed: make(chan struct{}), tap: tap}
 	mk := func(side int, prog []Fault) *MemSession {
-		s := &MemSession{pair: p, side: side, in: make(chan []byte, 4096)}
+		s := &MemSession{pair: p, side: side, in: make(chan []byte, 4096), own: make(chan struct{})}
 		return s
 	}
 	p.A, p.B = mk(0, spec.AB), mk(1, spec.BA)
@@ -200,14 +204,19 @@ func (p *SessionPair) SetSilent(on bool) {
 }
 
 // Cut closes the session; both ends see an error like a closed socket.
-func (p *SessionPair) Cut() { p.closeOnce.Do(func() { close(p.closed) }) }
+func (p *SessionPair) Cut() {
+	p.closeOnce.Do(func() { close(p.closed) })
+	p.anyOnce.Do(func() { close(p.anyClosed) })
+}
 
-// Done is closed when the session has ended.
-func (p *SessionPair) Done() <-chan struct{} { return p.closed }
+// Done is closed when the session has ended at one end at least (for a session that is not silent that is both ends at once).
+func (p *SessionPair) Done() <-chan struct{} { return p.anyClosed }
 
 func (s *MemSession) Send(data []byte) error {
 	select {
 	case <-s.pair.closed:
+		return fmt.Errorf("memlink: session closed")
+	case <-s.own:
 		return fmt.Errorf("memlink: session closed")
 	default:
 	}
@@ -223,8 +232,16 @@ func (s *MemSession) Send(data []byte) error {
 }
 
 func (s *MemSession) Recv(timeout time.Duration) ([]byte, error) {
+	// what was delivered before the session ended is read before the end is reported (as on a socket)
+	select {
+	case b := <-s.in:
+		return b, nil
+	default:
+	}
 	select {
 	case <-s.pair.closed:
+		return nil, io.EOF
+	case <-s.own:
 		return nil, io.EOF
 	default:
 	}
@@ -234,13 +251,34 @@ func (s *MemSession) Recv(timeout time.Duration) ([]byte, error) {
 	case b := <-s.in:
 		return b, nil
 	case <-s.pair.closed:
+		select {
+		case b := <-s.in:
+			return b, nil
+		default:
+		}
+		return nil, io.EOF
+	case <-s.own:
 		return nil, io.EOF
 	case <-tm.C:
 		return nil, netceptor.ErrTimeout
 	}
 }
 
+// Close ends the session. A silent session (silent failure: nothing gets through, not even the news that one side gave up)
+// is ended for the closing side only; the other side keeps its end until it closes it itself.
 func (s *MemSession) Close() error {
+	if atomic.LoadInt32(&s.pair.silent) == 1 {
+		s.ownOnce.Do(func() { close(s.own) })
+		s.pair.anyOnce.Do(func() { close(s.pair.anyClosed) })
+		return nil
+	}
+	// an ordered link delivers what this end sent before it closes (data before FIN): give the queue a moment to drain
+	if s.fifo != nil {
+		for i := 0; i < 50 && len(s.fifo) > 0; i++ {
+			time.Sleep(time.Millisecond)
+		}
+		time.Sleep(2 * time.Millisecond)
+	}
 	s.pair.Cut()
 	return nil
 }
